@@ -416,3 +416,28 @@ Definition run_fields_um (c : field * list (str * str * bool) * N * pyval * opti
       | _, _ => obs
       end
   end.
+
+(* hereditary version of known_F13 (the F13 region of the round-trip and normal-form theorems); IPv4NetworkField is
+   not in it: since F49 it only returns text that its own string pipeline leaves alone *)
+Fixpoint has_F13 (f : field) : bool :=
+  match f with
+  | FListT _ _ it => has_F13 it
+  | FDictT _ _ kf vf => has_F13 kf || has_F13 vf
+  | _ => known_F13 f
+  end.
+
+(* plain data: builtin lists/dicts only (no proxies), byte strings hold bytes *)
+Fixpoint plain (x : pyval) : bool :=
+  match x with
+  | PBytes b => bytes_ok b
+  | PList tg l => (tg =? 0)%N && forallb plain l
+  | PTuple l => forallb plain l
+  | PDict tg d => (tg =? 0)%N &&
+      (fix go (d : list (pyval * pyval)) : bool :=
+         match d with
+         | [] => true
+         | (k, v) :: r => plain k && plain v && go r
+         end) d
+  | PDigest _ _ _ => false
+  | _ => true
+  end.
